@@ -53,6 +53,7 @@ func allPairs() [][2]string {
 		out = append(out, [2]string{"parsigdb", k.name}, [2]string{"sigagg", k.name})
 	}
 	out = append(out, extraPairs()...)
+	out = append(out, cachePairs()...)
 	// interleave the envs so that a short run touches all of them: stable sort by a per-env counter
 	cnt := map[string]int{}
 	type it struct {
